@@ -100,7 +100,8 @@ def run(prop, tier):
             got = [1, exc_code(e)]
         cases.append((60, [w, ch, sel_tree(uc), p, q, list(data)]))
         impl.append(got)
-        meta.append({"width": w, "channels": samples_by_chan, "threshold_dB": float(T), "use_channel": uc})
+        meta.append({"width": w, "channels": samples_by_chan if n <= 64 else "%d channel(s) x %d samples, first %r..." % (ch, n, [c[:4] for c in samples_by_chan]),
+                     "threshold_dB": float(T), "use_channel": uc})
         valid_sel = ch == 1 or uc in (None, "any", "mix", "avg", "average") or (isinstance(uc, int) and -ch <= uc < ch)
         if valid_sel:
             zones.append(zone(mean_square(samples_by_chan, uc, ch), Tf))
@@ -146,6 +147,16 @@ def run(prop, tier):
                 for T in (top - 12, top - 3, 0):
                     for uc in ("mix", "avg", None, 0, -1):
                         add(chans, w, T, uc)
+    # long windows (beyond any internal block size; sums of squares beyond 2^31 and 2^63 must not wrap)
+    for (w, ch, n, amp, Ts) in ((2, 1, 8192, 1000, (62, 58)), (2, 1, 12288, 1000, (62, 58)), (2, 2, 4096, 1000, (62, 58)), (2, 1, 20000, 30000, (91, 88)),
+                                (1, 1, 192000, 127, (43, 41, -10)), (1, 1, 262144, -128, (43, 41)), (1, 2, 140000, 127, (43, 41)),
+                                (2, 1, 70000, 32767, (91, 89)), (4, 1, 9000, 2000000000, (187, 185)), (4, 3, 5000, -2147483648, (187, 185))):
+        if quick and n * ch > 300000:
+            continue
+        chans = [[(amp if (i % 2 == 0 or amp < 0) else -amp) for i in range(n)] for _ in range(ch)]
+        for T in Ts:
+            for uc in ((None, "mix", 0) if ch > 1 else (None,)):
+                add(chans, w, T, uc)
     # exact ties, and one LSB above / below, at even powers of ten: mean square = 10^(2j)  <=>  T = 20 j
     for j in (0, 1, 2, 3, 4):
         a = 10 ** j
